@@ -422,6 +422,61 @@ def r6(ctx, R):
         raise AnalysisError("no getter with a host fall-back found (get_implicit expected)")
 
 
+def r8(ctx, R):
+    R.rule("C07.R8", "building a diagnostic is total: a related location is only turned into a URI when its path exists - declarations found in intrinsic modules have no file", floor=1, confirmed=1)
+    dc = diag_class(ctx)
+    cls = ctx.m.classes[dc]
+    # where the stored path becomes a URI
+    sinks = []
+    for q in cls.methods.values():
+        f = ctx.m.funcs[q]
+        for c in calls_in(f.node):
+            if isinstance(c.func, (ast.Name, ast.Attribute)) and (ctx.m.dotted(f.rel, c.func) or "").split(".")[-1] == "path_to_uri" and c.args:
+                p = access_path(c.args[0])
+                if p and p.startswith(f.params[0] + "."):
+                    sinks.append((f, c, p))
+    if not sinks:
+        R.ok("C07.R8", cls.name, "no stored path is turned into a URI while building", loc(cls.rel, cls.node))
+        return
+    for f, c, p in sinks:
+        F = ctx.facts(f, interproc=False)
+        facts = F.at(c) or set()
+        field = p.split(".", 1)[1]
+        if ("nonnull", p) in facts or any(fa[0] == "cond" and fa[2] is True and fa[1].replace(" ", "") in (f"{p}isnotNone".replace(" ", ""),) for fa in facts):
+            R.ok("C07.R8", f.short, key(f, ctx.m.enclosing_stmt(c))[:90], loc(f, c), f"`{p}` is tested for None before it becomes a URI")
+            continue
+        # unguarded sink: then every value stored into the field must have a file
+        setters = {q for q in cls.methods.values() if any(isinstance(st, ast.Assign) and any(access_path(t) == f"{ctx.m.funcs[q].params[0]}.{field}" for t in st.targets) and isinstance(st.value, ast.Name) and st.value.id in ctx.m.funcs[q].params for st in ctx.m.walk_own(ctx.m.funcs[q].node))}
+        bad = []
+        for g in ctx.m.funcs.values():
+            if g.rel.endswith("debug.py"):
+                continue
+            for cc in calls_in(g.node):
+                if ctx.m.enclosing_func(cc) is not g:
+                    continue
+                tg = ctx.r.resolve_call(g, cc)[1]
+                for sq in tg & setters:
+                    sf = ctx.m.funcs[sq]
+                    pname = next(st.value.id for st in ctx.m.walk_own(sf.node) if isinstance(st, ast.Assign) and any(access_path(t) == f"{sf.params[0]}.{field}" for t in st.targets) and isinstance(st.value, ast.Name))
+                    arg = next((kw.value for kw in cc.keywords if kw.arg == pname), None)
+                    if arg is None:
+                        idx = sf.params.index(pname) - 1
+                        arg = cc.args[idx] if 0 <= idx < len(cc.args) else None
+                    if arg is None:
+                        continue
+                    ap = access_path(arg) or unparse(arg)
+                    own = ap.startswith(g.params[0] + ".") if g.params else False
+                    gf = (ctx.facts(g, interproc=False).at(cc) or set())
+                    guarded = ("nonnull", ap) in gf
+                    if not own and not guarded:
+                        bad.append((g, cc, ap))
+        if bad:
+            for g, cc, ap in bad[:4]:
+                R.violation("C07.R8", g.short, key(g, ctx.m.enclosing_stmt(cc))[:90], loc(g, cc), f"`{ap}` belongs to an object found by a look-up (it can live in an intrinsic module, whose tree has no path) and reaches path_to_uri in {f.short} untested: a local variable that masks a name of iso_fortran_env makes publishDiagnostics fail, no diagnostics are published for the file")
+        else:
+            R.ok("C07.R8", f.short, key(f, ctx.m.enclosing_stmt(c))[:90], loc(f, c), "every stored path comes from the reporting object's own file")
+
+
 def run(ctx, R):
     r1(ctx, R)
     r2(ctx, R)
@@ -429,3 +484,4 @@ def run(ctx, R):
     r4(ctx, R)
     r5(ctx, R)
     r6(ctx, R)
+    r8(ctx, R)
